@@ -190,7 +190,7 @@ def run(ctx):
                     if got_a != want_a or got_e != want_e:
                         viol.append({"definition": wire, "input_hex": t.hex(), "input": t.decode("latin-1"),
                                      "what": "arguments not recorded under the defined names: got %r %r, want %r %r" % (got_a, got_e, want_a, want_e)})
-                if acc:
+                if acc and m_wf == "valid":   # uses the definition allows (irregular accepted forms: see KF-C04-1/2)
                     import prop_C04
                     bad, s1 = prop_C04.roundtrip(t)
                     if bad:
